@@ -1405,6 +1405,10 @@ class Stage:
                 subst_to.append(ret.t0)
             elif is_equal(k, self.t):
                 subst_to.append(ret.t)
+            elif is_equal(k, self.DT):  # inputs of the discrete-time system function
+                subst_to.append(ret.DT)
+            elif is_equal(k, self.DT_control):
+                subst_to.append(ret.DT_control)
             else:
                 subst_to.append(MX.sym(k.name(), k.sparsity()))
         def renew(e):
